@@ -83,6 +83,15 @@ func applyEdit(kind string, sdls []string, a, b, c int) {
 	case "partialInput":
 		sdls[a] += "input PartIn {\n  a: String\n  b: String\n}\n"
 		sdls[b] += "input PartIn {\n  a: String\n  c: String\n}\n"
+	case "partialInputSubset":
+		sdls[a] += "input PartInS {\n  a: String\n  b: Int\n}\n"
+		sdls[b] += "input PartInS {\n  a: String\n}\n"
+	case "partialInterface":
+		sdls[a] += "interface PartIf {\n  a: String\n  b: String\n}\n"
+		sdls[b] += "interface PartIf {\n  a: String\n  c: String\n}\n"
+	case "partialInterfaceSubset":
+		sdls[a] += "interface PartIfS {\n  a: String\n  b: String\n}\n"
+		sdls[b] += "interface PartIfS {\n  a: String\n}\n"
 	case "fieldType":
 		sdls[a] += "type Sig {\n  a: String\n}\n"
 		sdls[b] += "type Sig {\n  a: Int\n}\n"
@@ -140,7 +149,7 @@ func applyEdit(kind string, sdls []string, a, b, c int) {
 }
 
 var conflictKinds = []string{"dupQueryField", "dupMutationField", "dupSubscriptionField", "kindObjectEnum", "kindScalarObject", "kindInputObject",
-	"kindInterfaceUnion", "nodeOneSide", "nodeFieldTwice", "nodeFieldTwicePartial", "partialObject", "partialObjectSubset", "partialInput",
+	"kindInterfaceUnion", "nodeOneSide", "nodeFieldTwice", "nodeFieldTwicePartial", "partialObject", "partialObjectSubset", "partialInput", "partialInputSubset", "partialInterface", "partialInterfaceSubset",
 	"fieldType", "fieldNullability", "fieldListWrapper", "fieldListElemNullability", "argListWrapper", "inputFieldListWrapper", "fieldArgs", "fieldArgType", "inputFieldType", "inputFieldDefault", "argDefault", "unionMembers", "unionMembersDisjoint"}
 var neutralKinds = []string{"neutralThreeWay", "neutralIdentical", "neutralDisjoint", "neutralEnumExtend"}
 
